@@ -12,6 +12,7 @@ from pyoma2.algorithms.data.result import BaseResult
 from pyoma2.functions.gen import (
     check_on_geo1,
     check_on_geo2,
+    flatten_sns_names,
     read_excel_file,
 )
 
@@ -33,6 +34,22 @@ if typing.TYPE_CHECKING:
             ImportWarning,
             stacklevel=2,
         )
+
+
+def _names_table(sens_names, ref_ind) -> pd.DataFrame:
+    """Sensors' names (any of the accepted forms) as the one-row table used by the checks."""
+    if isinstance(sens_names, pd.DataFrame):
+        return sens_names
+    return pd.DataFrame([flatten_sns_names(sens_names, ref_ind)])
+
+
+def _table(obj, index=None) -> pd.DataFrame:
+    """Geometry table given as DataFrame, array-like or None, as a DataFrame."""
+    if obj is None:
+        return pd.DataFrame()
+    if isinstance(obj, pd.DataFrame):
+        return obj
+    return pd.DataFrame(np.asarray(obj), index=index)
 
 
 class GeometryMixin:
@@ -93,13 +110,13 @@ class GeometryMixin:
 
         # Assemble dictionary for check function
         file_dict = {
-            "sensors names": sens_names,
+            "sensors names": _names_table(sens_names, ref_ind),
             "sensors coordinates": sens_coord,
-            "sensors directions": sens_dir,
-            "sensors lines": sens_lines if sens_lines is not None else pd.DataFrame(),
-            "BG nodes": bg_nodes if bg_nodes is not None else pd.DataFrame(),
-            "BG lines": bg_lines if bg_lines is not None else pd.DataFrame(),
-            "BG surfaces": bg_surf if bg_surf is not None else pd.DataFrame(),
+            "sensors directions": _table(sens_dir, index=sens_coord.index),
+            "sensors lines": _table(sens_lines),
+            "BG nodes": _table(bg_nodes),
+            "BG lines": _table(bg_lines),
+            "BG surfaces": _table(bg_surf),
         }
 
         # check on input
@@ -173,16 +190,16 @@ class GeometryMixin:
 
         # Assemble dictionary for check function
         file_dict = {
-            "sensors names": sens_names,
+            "sensors names": _names_table(sens_names, ref_ind),
             "points coordinates": pts_coord,
             "mapping": sens_map,
-            "constraints": cstr if cstr is not None else pd.DataFrame(),
-            "sensors sign": sens_sign if sens_sign is not None else pd.DataFrame(),
-            "sensors lines": sens_lines if sens_lines is not None else pd.DataFrame(),
-            "sensors surfaces": sens_surf if sens_surf is not None else pd.DataFrame(),
-            "BG nodes": bg_nodes if bg_nodes is not None else pd.DataFrame(),
-            "BG lines": bg_lines if bg_lines is not None else pd.DataFrame(),
-            "BG surfaces": bg_surf if bg_surf is not None else pd.DataFrame(),
+            "constraints": _table(cstr),
+            "sensors sign": _table(sens_sign),
+            "sensors lines": _table(sens_lines),
+            "sensors surfaces": _table(sens_surf),
+            "BG nodes": _table(bg_nodes),
+            "BG lines": _table(bg_lines),
+            "BG surfaces": _table(bg_surf),
         }
 
         # check on input
